@@ -69,6 +69,21 @@ def setup():
   for nm in ('cl_this', 'cl_new'):
     ns[nm].__module__ = 'c11'
     TARGETS[nm] = dict(call=gin.external_configurable(ns[nm], name=nm, module='c11'), sig=['a', 'b'], varkw=False, lists={})
+  # a *args catch-all is not a **kwargs catch-all; a class whose own __new__ names the parameters while a cooperative
+  # base contributes __init__(self, **kwargs)
+  exec('def fx_varargs(a="da", *args):\n  REC.append(("fx_varargs", gin.current_scope_str(), dict(a=a)))\n'
+       'class cl_varargs:\n  def __init__(self, a="da", *rest):\n'
+       '    REC.append(("cl_varargs", gin.current_scope_str(), dict(a=a)))\n'
+       'class CoopBase:\n  def __init__(self, **kwargs):\n    pass\n'
+       'class cl_own_new(CoopBase):\n  def __new__(cls, a="da", b="db"):\n'
+       '    REC.append(("cl_own_new", gin.current_scope_str(), dict(a=a, b=b)))\n    return object.__new__(cls)\n', ns)  # pylint: disable=exec-used
+  for nm in ('fx_varargs', 'cl_varargs', 'cl_own_new'):
+    ns[nm].__module__ = 'c11'
+  TARGETS['fx_varargs'] = dict(call=gin.configurable(ns['fx_varargs']), sig=['a'], varkw=False, lists={})
+  TARGETS['cl_varargs'] = dict(call=gin.external_configurable(ns['cl_varargs'], name='cl_varargs', module='c11'),
+                               sig=['a'], varkw=False, lists={})
+  TARGETS['cl_own_new'] = dict(call=gin.external_configurable(ns['cl_own_new'], name='cl_own_new', module='c11'),
+                               sig=['a', 'b'], varkw=False, lists={})
   # functions already wrapped by an ordinary user decorator (functools.wraps, *args/**kwargs wrapper)
   import functools  # pylint: disable=import-outside-toplevel
 
@@ -156,7 +171,7 @@ class Box:
   import c11dyn  # pylint: disable=import-outside-toplevel,unused-import
 
 
-PARAMS = ['a', 'b', 'nope', 'zz', '_private', 'A', 'self', 'this', '_cls']
+PARAMS = ['a', 'b', 'nope', 'zz', '_private', 'A', 'self', 'this', '_cls', 'args', 'rest']
 SCOPES = ['', 's']
 PATHS = ['str', 'tuple', 'list', 'pbk', 'text', 'block', 'files_and_bindings', 'hook', 'hook_tuple', 'tuple4',
          'list4', 'hook_tuple4', 'hook_after_valid_key']
